@@ -1,3 +1,334 @@
 package main
 
-func replayStorage(path string) {}
+// Replay of TLC behaviours of specs/Accounts/DataTrie.tla (C08) on the real TrackableDataTrie reached through
+// AccountsDB.LoadAccount / SaveAccount / Commit over a real trie.  The harness builds exactly the caller slices the
+// behaviour describes (backing array, offset, length, capacity), performs the calls, reads every key back with
+// RetrieveValue and compares with the bytes the specification says were written last (`exp`).
+
+import (
+	"bufio"
+	"bytes"
+	"encoding/json"
+	"fmt"
+	"os"
+	"sort"
+
+	"github.com/ElrondNetwork/elrond-go/data/state"
+	"verif/harness/internal/vtrace"
+)
+
+func toBytes(v interface{}) []byte {
+	a, _ := v.([]interface{})
+	r := make([]byte, len(a))
+	for i := range a {
+		r[i] = byte(vtrace.Int(a[i]))
+	}
+	return r
+}
+
+func eqSeq(v interface{}, got []byte, gotErr bool) bool {
+	a, _ := v.([]interface{})
+	if len(a) == 1 && vtrace.Int(a[0]) == -1 {
+		return gotErr
+	}
+	if gotErr || len(a) != len(got) {
+		return false
+	}
+	for i := range a {
+		if vtrace.Int(a[i]) != int(got[i]) {
+			return false
+		}
+	}
+	return true
+}
+
+type stoReplayer struct {
+	nviol    map[string]int
+	steps    int
+	reads    int
+	drifts   int
+	distinct *vtrace.Distinct
+	samples  int
+	writes   map[string]int
+}
+
+// slice builds the caller slice described by the behaviour: b = 0 a fresh array of exactly len bytes,
+// b > 0 bufs[b][off : off+len : off+cap]; the caller's bytes are filled in
+func mkSlice(bufs [][]byte, d map[string]interface{}, content []byte) []byte {
+	b, off, n, c := vtrace.Int(d["b"]), vtrace.Int(d["off"]), vtrace.Int(d["len"]), vtrace.Int(d["cap"])
+	if n != len(content) {
+		panic("slice length does not match its content")
+	}
+	if b == 0 {
+		s := make([]byte, n)
+		copy(s, content)
+		return s[:n:n]
+	}
+	s := bufs[b][off : off+n : off+c]
+	copy(s, content)
+	return s
+}
+
+func (r *stoReplayer) run(b []Step, bi int) {
+	first := b[0]
+	addr := toBytes(first.In["addr"])
+	keys := map[string][]byte{}
+	var names []string
+	for n, v := range asMap(first.In["keys"]) {
+		keys[n] = toBytes(v)
+		names = append(names, n)
+	}
+	sort.Strings(names)
+	capacity := vtrace.Int(first.In["cap"])
+	bufs := [][]byte{nil, make([]byte, capacity), make([]byte, capacity)}
+	e := newEnv([][]byte{addr}, false)
+	var root []byte
+	load := func() state.UserAccountHandler {
+		h, err := e.adb.LoadAccount(addr)
+		must(err)
+		return h.(state.UserAccountHandler)
+	}
+	acc := load()
+	for si := 1; si < len(b); si++ {
+		st := b[si]
+		switch st.A {
+		case "Write":
+			k := mkSlice(bufs, asMap(st.In["ks"]), toBytes(st.In["kb"]))
+			v := mkSlice(bufs, asMap(st.In["vs"]), toBytes(st.In["vb"]))
+			if err := acc.DataTrieTracker().SaveKeyValue(k, v); err != nil {
+				r.drift(fmt.Sprintf("SaveKeyValue: %v", err), b, si)
+				return
+			}
+			r.writes[vtrace.Str(st.In["layout"])]++
+		case "Scribble":
+			buf := bufs[vtrace.Int(st.In["b"])]
+			for i := range buf {
+				buf[i] = 238
+			}
+		case "SaveAccount":
+			if err := e.adb.SaveAccount(acc); err != nil {
+				r.drift(fmt.Sprintf("SaveAccount: %v", err), b, si)
+				return
+			}
+			acc = load()
+		case "Commit":
+			rh, err := e.adb.Commit()
+			if err != nil {
+				r.drift(fmt.Sprintf("Commit: %v", err), b, si)
+				return
+			}
+			root = rh
+			acc = load()
+		case "Reload":
+			e.open(root)
+			acc = load()
+		case "End":
+			continue
+		default:
+			panic("unknown action " + st.A)
+		}
+		r.steps++
+		exp, read, src, lay := asMap(st.St["exp"]), asMap(st.St["read"]), asMap(st.St["src"]), asMap(st.St["lay"])
+		for _, n := range names {
+			got, err := acc.DataTrieTracker().RetrieveValue(append([]byte(nil), keys[n]...))
+			gotErr := false
+			if err != nil {
+				if err == state.ErrNilTrie { // the account never had a data trie: nothing stored
+					got = nil
+				} else {
+					gotErr = true
+				}
+			}
+			got = append([]byte(nil), got...)
+			r.reads++
+			if !eqSeq(exp[n], got, gotErr) {
+				how := "reads-other-bytes"
+				if gotErr {
+					how = "read-fails"
+				} else if len(toBytes(exp[n])) == 0 {
+					how = "deleted-key-reads-bytes"
+				}
+				sig := fmt.Sprintf("C08/%s/%s/%s/after-%s", vtrace.Str(src[n]), vtrace.Str(lay[n]), how, st.A)
+				if gotErr && len(toBytes(exp[n])) == 0 {
+					sig = fmt.Sprintf("C08/%s/deleted-key-read-fails", vtrace.Str(src[n]))
+				}
+				r.violation(sig, fmt.Sprintf("key %s (last written with caller layout %q, now served from %s) reads %v err=%v after %s; written last: %v (behaviour %d step %d)",
+					n, vtrace.Str(lay[n]), vtrace.Str(src[n]), got, err, st.A, exp[n], bi, si), b, si)
+				return
+			}
+			if !eqSeq(read[n], got, gotErr) {
+				r.drift(fmt.Sprintf("key %s reads %v err=%v, the specification predicted %v (property holds: written last %v) (behaviour %d step %d)",
+					n, got, err, read[n], exp[n], bi, si), b, si)
+				return
+			}
+		}
+	}
+}
+
+func (r *stoReplayer) violation(sig, what string, b []Step, si int) {
+	r.nviol[sig]++
+	if r.nviol[sig] > 1 || len(r.nviol) > 8 {
+		return
+	}
+	vtrace.Violation("C08", sig, what, M{"behaviour": b[:si+1], "step": si})
+}
+
+func (r *stoReplayer) drift(what string, b []Step, si int) {
+	r.drifts++
+	if r.drifts <= 3 {
+		vtrace.Drift("C08", what, M{"behaviour": b[:si+1], "step": si})
+	}
+}
+
+func replayStorage(path string) {
+	f, err := os.Open(path)
+	if err != nil {
+		vtrace.Broken(err.Error())
+		return
+	}
+	defer f.Close()
+	rd := bufio.NewReaderSize(f, 1<<20)
+	r := &stoReplayer{nviol: map[string]int{}, distinct: vtrace.NewDistinct(), writes: map[string]int{}}
+	bi := -1
+	for {
+		line, rerr := rd.ReadBytes('\n')
+		if len(line) > 1 {
+			var b []Step
+			if e := json.Unmarshal(line, &b); e != nil {
+				vtrace.Broken(fmt.Sprintf("behaviour line %d: %v", bi+2, e))
+				return
+			}
+			bi++
+			if len(b) >= 2 {
+				r.run(b, bi)
+				last := b[len(b)-1]
+				if last.A == "End" && len(b) > 2 {
+					last = b[len(b)-2]
+				}
+				if nontrivialStorage(b) {
+					r.distinct.Add(canon(b[0].In["addr"]) + canon(b[len(b)-2].St) + last.A + canon(last.In))
+				}
+				if r.samples < 3 && len(b) > 3 {
+					r.samples++
+					vtrace.Sample("C08", b)
+				}
+			}
+		}
+		if rerr != nil {
+			break
+		}
+	}
+	total := 0
+	for _, n := range r.nviol {
+		total += n
+	}
+	vtrace.Stat("behaviours", bi+1)
+	vtrace.Stat("steps", r.steps)
+	vtrace.Stat("reads", r.reads)
+	vtrace.Stat("distinct_nontrivial", r.distinct.Len())
+	vtrace.Stat("violations", total)
+	vtrace.Stat("violation_classes", len(r.nviol))
+	vtrace.Stat("drifted", r.drifts)
+	vtrace.Stat("writes_by_layout", r.writes)
+}
+
+// a history is non-trivial for C08 if some write used a caller buffer or deleted a key
+func nontrivialStorage(b []Step) bool {
+	for _, s := range b {
+		if s.A == "Write" && (vtrace.Str(s.In["layout"]) != "fresh" || len(toBytes(s.In["vb"])) == 0) {
+			return true
+		}
+	}
+	return false
+}
+
+// limits8: value sizes around the leaf-size limit. Each behaviour is New + one Big(n) step whose `accepted` flag is
+// the specification's verdict; an accepted value must read back at every point, a rejected call changes nothing.
+func limitsStorage(path, tier string) {
+	f, err := os.Open(path)
+	if err != nil {
+		vtrace.Broken(err.Error())
+		return
+	}
+	defer f.Close()
+	rd := bufio.NewReaderSize(f, 1<<20)
+	sizes := 0
+	seen := map[int]bool{}
+	for {
+		line, rerr := rd.ReadBytes('\n')
+		if len(line) > 1 {
+			var b []Step
+			if e := json.Unmarshal(line, &b); e != nil {
+				vtrace.Broken(e.Error())
+				return
+			}
+			last := b[len(b)-1]
+			n := vtrace.Int(last.In["n"])
+			accepted, _ := last.Out["accepted"].(bool)
+			if last.A == "Big" && !seen[n] && !(tier == "quick" && accepted && n > 8<<20) {
+				seen[n] = true
+				sizes++
+				limitCase(toBytes(b[0].In["addr"]), n, vtrace.Int(last.In["limit"]), accepted)
+			}
+		}
+		if rerr != nil {
+			break
+		}
+	}
+	vtrace.Stat("sizes", sizes)
+}
+
+func limitCase(addr []byte, n, limit int, accepted bool) {
+	class := "below-limit"
+	if n == limit {
+		class = "at-limit"
+	} else if n > limit {
+		class = "above-limit"
+	}
+	e := newEnv([][]byte{addr}, false)
+	load := func() state.UserAccountHandler {
+		h, err := e.adb.LoadAccount(addr)
+		must(err)
+		return h.(state.UserAccountHandler)
+	}
+	key := []byte("big-key")
+	val := make([]byte, n)
+	for i := range val {
+		val[i] = byte(i%251 + 1)
+	}
+	acc := load()
+	err := acc.DataTrieTracker().SaveKeyValue(key, val)
+	if (err == nil) != accepted {
+		vtrace.Violation("C08", "C08/limit/"+class+"/acceptance", fmt.Sprintf("SaveKeyValue of a %d-byte value (limit %d): error %v, the specification says accepted=%v", n, limit, err, accepted), M{"n": n})
+		return
+	}
+	want := val
+	if !accepted {
+		want = nil
+	}
+	check := func(point string) bool {
+		got, rerr := readValue(acc, key)
+		if rerr != nil || !bytes.Equal(got, want) {
+			vtrace.Violation("C08", "C08/limit/"+class+"/"+point, fmt.Sprintf("a %d-byte value (accepted=%v) reads back %d bytes, err=%v at point %s", n, accepted, len(got), rerr, point), M{"n": n})
+			return false
+		}
+		return true
+	}
+	if !check("dirty") {
+		return
+	}
+	must(e.adb.SaveAccount(acc))
+	acc = load()
+	if !check("saved") {
+		return
+	}
+	root, cerr := e.adb.Commit()
+	must(cerr)
+	acc = load()
+	if !check("committed") {
+		return
+	}
+	e.open(root)
+	acc = load()
+	check("reloaded")
+}
